@@ -73,6 +73,7 @@ func NewWorld(rng *rand.Rand, nAssets, noise int) *World {
 	for i := 0; i < nAssets; i++ {
 		w.Assets = append(w.Assets, gen.Asset(rng))
 	}
+	w.Ledger.Stamp = func() int64 { return atomic.AddInt64(&w.Seq, 1) }
 	go w.Ledger.RunClock(w.stop, func() bool { return w.Bus.Drained() })
 	return w
 }
@@ -124,6 +125,7 @@ type Party struct {
 	acceptNonce *client.NonceShare
 	watched     map[channel.ID]bool
 	published   map[channel.ID][]uint64
+	pubStamp    map[channel.ID][]int64
 	channels    map[channel.ID]*client.Channel
 	newCh       chan *client.Channel
 	OnUpdate    UpdatePolicy
@@ -152,7 +154,7 @@ func (w *World) NewParty(name string, funds int64) *Party {
 		panic(err)
 	}
 	p := &Party{Name: name, W: w, Acc: acc, Addr: addr, WAddr: gen.AddrMap(addr), Wire: gen.WireAddr(w.Rng),
-		watched: map[channel.ID]bool{}, published: map[channel.ID][]uint64{},
+		watched: map[channel.ID]bool{}, published: map[channel.ID][]uint64{}, pubStamp: map[channel.ID][]int64{},
 		channels: map[channel.ID]*client.Channel{}, newCh: make(chan *client.Channel, 64), Timeout: 30 * time.Second}
 	for _, a := range w.Assets {
 		w.Ledger.Mint(addr, a, big.NewInt(funds))
@@ -236,6 +238,7 @@ func (w *pubWrap) Publish(ctx context.Context, tx channel.Transaction) error {
 	if tx.State != nil {
 		w.p.mu.Lock()
 		w.p.published[tx.State.ID] = append(w.p.published[tx.State.ID], tx.State.Version)
+		w.p.pubStamp[tx.State.ID] = append(w.p.pubStamp[tx.State.ID], atomic.AddInt64(&w.p.W.Seq, 1))
 		w.p.mu.Unlock()
 	}
 	return err
@@ -270,6 +273,14 @@ func (p *Party) Published(id channel.ID) []uint64 {
 	p.mu.Lock()
 	defer p.mu.Unlock()
 	return append([]uint64(nil), p.published[id]...)
+}
+
+// PublishedStamps returns, parallel to Published, the shared-counter stamps taken right after
+// each publication returned.
+func (p *Party) PublishedStamps(id channel.ID) []int64 {
+	p.mu.Lock()
+	defer p.mu.Unlock()
+	return append([]int64(nil), p.pubStamp[id]...)
 }
 
 // AwaitWatched waits until the watcher has accepted the channel (bounded).
